@@ -37,19 +37,21 @@ CLAIM = dict(
           "at that offset if the ragged block has a non-TRANSPARENT value there and its old value otherwise (read-back, "
           "frame, clipping, transparency in one per-cell equation). Get-after-set laws: C17_pixel_readback, C17_cell_readback (incl. the shared "
           "rows), C17_mapget_after_mapset, C17_flagget_after_flagreset, C17_noteget_after_noteset (None fields keep their "
-          "value), C17_changet_after_chanset. Bit-level facts are complete vm_compute sweeps over the regenerated kernels "
+          "value), C17_changet_after_chanset. C17_refines_nogfx / C17_nogfx_refuses: a Map without a Gfx behaves identically "
+          "on calls confined to rows 0-31 and refuses cell accesses below. C17_monitor_sound / C17_model_holds(_seq): the "
+          "extracted monitor predicate says exactly 'no raise, the plain model's value and memory', and the code's model "
+          "passes it on every call and history. Bit-level facts are complete vm_compute sweeps over the regenerated kernels "
           "(all bytes, all byte pairs for flags, all 65,536 note words, all note-field updates); loops by induction with "
           "invariants. Tie: kernels (index expressions, masks, clip tests, asserts) regenerated from gfx.py, map.py, "
           "gff.py, sfx.py, music.py on every run and self-tested in Coq; the hand-modelled loops are run extracted against "
           "the real Game object on generated edge-biased histories (values after every call and the whole memory), and "
           "the extracted plain model (holds_C17_seq, built from Spec/ only) judges the implementation's real observations."),
-    note=("Three clipping defects found by this check were repaired in the implementation (findings/known_C17.json, fixed): "
+    note=("Three clipping defects found by this check were repaired in the implementation (findings/known_findings.json, fixed): "
           "set_sprite clipped with > 128 (column 128 wrapped into the next row, row 128 raised IndexError), set_rect_tiles "
           "clipped rows with > 127 (AssertionError below row 63), get_rect_tiles asserted instead of zero-filling below the "
           "map. Trusted: Coq kernel+VM, translator, extraction, OCaml glue, Spec/PlainMem.v as a faithful reading of the "
           "docstrings and the PICO-8 memory layout, the in_contract ranges. Out-of-contract calls are only compared "
-          "model-vs-implementation (exception kinds); a Map without a Gfx attached (has_gfx = false) is in the model and "
-          "the correspondence but not in the theorems."),
+          "model-vs-implementation (exception kinds)."),
     technique='Coq refinement proof (sweeps on regenerated kernels + induction over loops) + correspondence + extracted plain model as monitor',
     design_ref='8 C17')
 OPS_GET = ['gs', 'mgc', 'mgr', 'fg', 'sgn', 'sgp', 'mugc', 'mugp']
